@@ -496,6 +496,7 @@ class Merge(Expr):
 
             left_suffix, right_suffix = self.suffixes[0], self.suffixes[1]
             project_left, project_right = [], []
+            needed_right = set()
 
             # Find columns to project on the left
             for col in left.columns:
@@ -506,11 +507,11 @@ class Merge(Expr):
                     if col in right.columns:
                         # Right column must be present
                         # for the suffix to be applied
-                        project_right.append(col)
+                        needed_right.add(col)
 
             # Find columns to project on the right
             for col in right.columns:
-                if col in right_on or col in projection:
+                if col in right_on or col in projection or col in needed_right:
                     project_right.append(col)
                 elif f"{col}{right_suffix}" in projection:
                     project_right.append(col)
